@@ -24,9 +24,16 @@ object those replies read or write.  Matches are abstracted to `MKey` (`none` = 
 | `rxStats`, `runStats`        | `_rx_stats_request` (:343-356), `_stats_*` (:962-1023, with repairs D10, D27, C13-1)   |
 | `sendError`                  | `send_error` (:452-468): the error carries the xid of the request                      |
 
+| `lookupPacket`, `rxPacket`   | `_lookup_packet` (:566-589: lookup_count / matched_count, the hit entry's output actions |
+|                              | resp. the table-miss packet_in), `rx_packet` (:519-564: missing port, OFPPC_NO_RECV)     |
+| `outputAction`               | the OFPP_TABLE branch of `_output_packet` (:739-743): the packet is submitted to the table |
+
 Partial Python operations stay partial: a type code without handler is `Err.runtime` (the `RuntimeError` of :241), a
-handler applied to a body of another class is `Err.attr`.  Two behaviours are outside the model and answer
-`Err.unmodelled` (they belong to C12): `output:TABLE` (re-enters `rx_packet`) and the enqueue action.
+handler applied to a body of another class is `Err.attr`.  Outside the model, answered with `Err.unmodelled` (C12's):
+the enqueue action in a message's own action list, `output:TABLE` in the action list of a flow_mod (the standard allows
+OFPP_TABLE in packet_out only) and `output:TABLE` among the actions of a table entry a packet hits (unbounded
+re-submission).  `output:TABLE` in a packet_out IS modelled: the packet is looked up with its in_port — that is what the
+OFPST_TABLE counters `lookup_count` / `matched_count` count, whichever way the packet reached the table.
 `addEntry` is the linear form of the binary search of `FlowTable.add_entry` (same position on a table sorted by
 descending priority, which every reachable table is).  Core Lean only, structural recursion only. -/
 namespace Pox.SwitchReq
@@ -122,7 +129,10 @@ inductive Msg
   | featuresRequest (xid : Nat)
   | getConfigRequest (xid : Nat)
   | setConfig (xid flags missSendLen : Nat)
-  | packetOut (xid : Nat) (bufferId : Option Nat) (hasData : Bool) (acts : List Act)
+  /-- `inPort`: the in_port the packet is processed with — `packet_out.in_port` when the message carries the packet, the
+      in_port stored with the buffered packet (`_packet_buffer[id-1][1]`, announced in the packet_in that handed the id
+      out) when it names a buffer; the buffers themselves stay abstracted to occupancy bits -/
+  | packetOut (xid : Nat) (bufferId : Option Nat) (hasData : Bool) (inPort : Nat) (acts : List Act)
   | flowMod (xid command : Nat) (mkey : MKey) (priority cookie flags idle hard outPort : Nat)
       (bufferId : Option Nat) (acts : List Act)
   | portMod (xid portNo hw config mask : Nat)
@@ -173,7 +183,7 @@ def Msg.kind : Msg → Option Kind
 
 def Msg.xid : Msg → Nat
   | .hello x | .echoRequest x _ | .echoReply x _ | .vendor x _ | .featuresRequest x | .getConfigRequest x
-  | .setConfig x _ _ | .packetOut x _ _ _ | .flowMod x _ _ _ _ _ _ _ _ _ _ | .portMod x _ _ _ _ | .statsRequest x _
+  | .setConfig x _ _ | .packetOut x _ _ _ _ | .flowMod x _ _ _ _ _ _ _ _ _ _ | .portMod x _ _ _ _ | .statsRequest x _
   | .barrierRequest x | .queueGetConfigRequest x _ | .unhandled _ x => x
 
 /-- `msg.header_type` -/
@@ -297,7 +307,7 @@ def bufferPacket (s : SwitchState) : SwitchState × Option Nat :=
     if s.buffers.length ≥ s.maxBuffers then (s, none)
     else ({ s with buffers := s.buffers ++ [true] }, some (s.buffers.length + 1))
 
-/-- `_output_packet`: only what reaches the controller connection -/
+/-- `_output_packet`: only what reaches the controller connection (OFPP_TABLE: see `outputAction`) -/
 def outputPacket (s : SwitchState) (port : Nat) : Res :=
   if port < OFPP_MAX then .ok (s, [])
   else if port = OFPP_IN_PORT then .ok (s, [])
@@ -308,21 +318,62 @@ def outputPacket (s : SwitchState) (port : Nat) : Res :=
   else if port = OFPP_TABLE then .error .unmodelled
   else .ok (s, [])
 
+/-- `entry.match.matches_with_wildcards(packet_match)` on the abstract matches, for a packet that came in on port `p` -/
+def hitsPort (p : Nat) (e : Flow) : Bool := e.mkey == none || e.mkey == some p
+
+/-- the output actions of the entry a packet hit, in order (the other actions write nothing to the controller); an
+`output:TABLE` among them re-submits the packet without bound — outside the model -/
+def runOuts : SwitchState → List Nat → Res
+  | s, [] => .ok (s, [])
+  | s, p :: r =>
+    match outputPacket s p with
+    | .error e => .error e
+    | .ok (s1, o1) =>
+      match runOuts s1 r with
+      | .error e => .error e
+      | .ok (s2, o2) => .ok (s2, o1 ++ o2)
+
+/-- the in_port is a port of the switch whose OFPPC_NO_PACKET_IN bit is set -/
+def noPacketIn (s : SwitchState) (p : Nat) : Bool :=
+  match s.ports.find? (·.no == p) with
+  | some q => hasBit q.config OFPPC_NO_PACKET_IN
+  | none => false
+
+/-- `_lookup_packet`: the packet is looked up in the table (`lookup_count`), the first entry in table order that matches
+is hit (`matched_count`, its output actions are carried out); a miss goes to the controller as a packet_in.  The hit
+entry's own packet / byte counters are data-path counters (fed as snapshots, like the port counters). -/
+def lookupPacket (s : SwitchState) (inPort : Nat) : Res :=
+  match s.table.find? (hitsPort inPort) with
+  | some e => runOuts { s with lookupCount := s.lookupCount + 1, matchedCount := s.matchedCount + 1 } e.outs
+  | none =>
+    if noPacketIn s inPort then .ok ({ s with lookupCount := s.lookupCount + 1 }, [])
+    else .ok ((bufferPacket { s with lookupCount := s.lookupCount + 1 }).1,
+              [.packetIn (bufferPacket { s with lookupCount := s.lookupCount + 1 }).2])
+
+/-- `_action_output` of a message's own action list: OFPP_TABLE submits the packet to the flow table with the in_port it
+is processed with (`none`: a flow_mod's action list — outside the model), every other port is `_output_packet` -/
+def outputAction (s : SwitchState) (inPort : Option Nat) (port : Nat) : Res :=
+  if port = OFPP_TABLE then
+    match inPort with
+    | some p => lookupPacket s p
+    | none => .error .unmodelled
+  else outputPacket s port
+
 /-- `_process_actions_for_packet` -/
-def processActions (xid : Nat) : SwitchState → List Act → Res
+def processActions (xid : Nat) (inPort : Option Nat) : SwitchState → List Act → Res
   | s, [] => .ok (s, [])
   | s, a :: rest =>
     match actionTable.lookup a.ty with
     | none => .ok (s, [sendError xid OFPET_BAD_ACTION OFPBAC_BAD_TYPE])
     | some .output =>
-      match outputPacket s a.port with
+      match outputAction s inPort a.port with
       | .error e => .error e
       | .ok (s1, o1) =>
-        match processActions xid s1 rest with
+        match processActions xid inPort s1 rest with
         | .error e => .error e
         | .ok (s2, o2) => .ok (s2, o1 ++ o2)
     | some .enqueue => .error .unmodelled
-    | some _ => processActions xid s rest
+    | some _ => processActions xid inPort s rest
 
 /-- buffer id `id` (as on the wire) names a stored packet -/
 def bufferLive (s : SwitchState) (id : Nat) : Bool := id != 0 && s.buffers.getD (id - 1) false
@@ -330,21 +381,21 @@ def bufferLive (s : SwitchState) (id : Nat) : Bool := id != 0 && s.buffers.getD 
 /-- `_process_actions_for_packet_from_buffer` (buffer id as on the wire, unsigned; `ofp` is always the triggering
 packet_out / flow_mod).  Repair C13-2: an id outside the slot list is answered with BAD_REQUEST/BUFFER_UNKNOWN, an
 already flushed slot with BAD_REQUEST/BUFFER_EMPTY. -/
-def processFromBuffer (xid : Nat) (s : SwitchState) (acts : List Act) (id : Nat) : Res :=
+def processFromBuffer (xid : Nat) (inPort : Option Nat) (s : SwitchState) (acts : List Act) (id : Nat) : Res :=
   if id = 0 then .ok (s, [sendError xid OFPET_BAD_REQUEST OFPBRC_BUFFER_UNKNOWN])
   else if h : id - 1 < s.buffers.length then
     if s.buffers[id - 1] then
-      match processActions xid s acts with
+      match processActions xid inPort s acts with
       | .error e => .error e
       | .ok (s1, o) => .ok ({ s1 with buffers := s1.buffers.set (id - 1) false }, o)
     else .ok (s, [sendError xid OFPET_BAD_REQUEST OFPBRC_BUFFER_EMPTY])
   else .ok (s, [sendError xid OFPET_BAD_REQUEST OFPBRC_BUFFER_UNKNOWN])
 
 /-- `_rx_packet_out` -/
-def rxPacketOut (s : SwitchState) (xid : Nat) (bufferId : Option Nat) (hasData : Bool) (acts : List Act) : Res :=
-  if hasData then processActions xid s acts
+def rxPacketOut (s : SwitchState) (xid : Nat) (bufferId : Option Nat) (hasData : Bool) (inPort : Nat) (acts : List Act) : Res :=
+  if hasData then processActions xid (some inPort) s acts
   else match bufferId with
-    | some id => processFromBuffer xid s acts id
+    | some id => processFromBuffer xid (some inPort) s acts id
     | none => .ok (s, [])
 
 /-! ### flow table -/
@@ -435,7 +486,7 @@ def rxFlowModBody (s : SwitchState) (xid command : Nat) (mk : MKey) (prio cookie
     match bufferId with
     | none => .ok r
     | some id =>
-      match processFromBuffer xid r.1 acts id with
+      match processFromBuffer xid none r.1 acts id with
       | .error e => .error e
       | .ok (s2, o2) => .ok (s2, r.2 ++ o2)
 
@@ -595,7 +646,7 @@ def runRx (h : Kind) (s : SwitchState) (m : Msg) : Res :=
     .ok (s, [.featuresReply x s.dpid s.maxBuffers 1 s.caps s.actionBits s.ports])
   | .getConfigRequest, .getConfigRequest x => .ok (s, [.getConfigReply x s.configFlags s.missSendLen])
   | .setConfig, .setConfig _ f l => .ok ({ s with missSendLen := l, configFlags := f }, [])
-  | .packetOut, .packetOut x b d a => rxPacketOut s x b d a
+  | .packetOut, .packetOut x b d p a => rxPacketOut s x b d p a
   | .flowMod, .flowMod x c mk p ck f i hd op b a => rxFlowMod s x c mk p ck f i hd op b a
   | .portMod, .portMod x p hw c mk => .ok (rxPortMod s x p hw c mk)
   | .statsRequest, .statsRequest x r => rxStats s x r
@@ -635,13 +686,13 @@ def runTolerant : SwitchState → List Msg → SwitchState × List (Except Err (
 
 /-! ### what is not a controller message: connection-level rejections and the data plane -/
 
-/-- counters (and buffer occupancy) of the real switch after data-plane activity; the data path itself is C12's -/
+/-- port and per-entry counters (and buffer occupancy) of the real switch after data-plane activity; the data path itself
+is C12's.  The table counters `lookup_count` / `matched_count` are NOT taken from the switch: the model counts them
+itself (`lookupPacket`). -/
 structure Snapshot where
   ports : List PortCtr
   /-- (packet_count, byte_count) per table entry, in table order -/
   flows : List (Nat × Nat)
-  lookupCount : Nat
-  matchedCount : Nat
   /-- `none`: buffers untouched -/
   buffers : Option (List Bool)
   deriving Repr
@@ -652,8 +703,15 @@ def applyFlowCtrs : List Flow → List (Nat × Nat) → List Flow
 
 /-- the counters move (only they, and the buffers when frames reached the controller path) -/
 def applySnapshot (s : SwitchState) (n : Snapshot) : SwitchState :=
-  { s with portStats := n.ports, table := applyFlowCtrs s.table n.flows, lookupCount := n.lookupCount,
-           matchedCount := n.matchedCount, buffers := match n.buffers with | some b => b | none => s.buffers }
+  { s with portStats := n.ports, table := applyFlowCtrs s.table n.flows,
+           buffers := match n.buffers with | some b => b | none => s.buffers }
+
+/-- `rx_packet` for a frame that is neither addressed to the spanning-tree group nor an IP fragment: nothing happens on a
+port the switch does not have or whose OFPPC_NO_RECV bit is set; otherwise the frame is looked up in the table -/
+def rxPacket (s : SwitchState) (inPort : Nat) : Res :=
+  match s.ports.find? (·.no == inPort) with
+  | none => .ok (s, [])
+  | some q => if hasBit q.config OFPPC_NO_RECV then .ok (s, []) else lookupPacket s inPort
 
 /-- everything that happens at the switch end of the connection, in order -/
 inductive Event
@@ -667,12 +725,18 @@ inductive Event
   | badVersion (xid : Nat) (starting : Bool)
   /-- data-plane traffic went through the switch: counters as observed afterwards -/
   | traffic (n : Snapshot)
+  /-- one frame arrived on port `inPort` (`rx_packet`); port / entry counters and buffer occupancy as observed afterwards -/
+  | rx (inPort : Nat) (n : Snapshot)
 
 def stepEv (s : SwitchState) : Event → Res
   | .msg m => rxMessage s m
   | .rejected xid code => .ok (s, [.error xid OFPET_BAD_REQUEST code])
   | .badVersion xid starting => .ok (s, if starting then [.error xid OFPET_HELLO_FAILED OFPHFC_INCOMPATIBLE] else [])
   | .traffic n => .ok (applySnapshot s n, [])
+  | .rx p n =>
+    match rxPacket s p with
+    | .error e => .error e
+    | .ok (s1, o) => .ok (applySnapshot s1 n, o)
 
 def runEv : SwitchState → List Event → Except Err (SwitchState × List (List Reply))
   | s, [] => .ok (s, [])
@@ -701,9 +765,9 @@ def Msg.WF : Msg → Prop
 
 def actsInScope (acts : List Act) : Prop := ∀ a ∈ acts, a.ty ≠ 11 ∧ ¬ (a.ty = 0 ∧ a.port = OFPP_TABLE)
 
-/-- the part of the action vocabulary this model covers (enqueue and output:TABLE are C12's) -/
+/-- the part of the action vocabulary the `_partial` theorems cover (no enqueue, no output:TABLE) -/
 def Msg.InScope : Msg → Prop
-  | .packetOut _ _ _ acts => actsInScope acts
+  | .packetOut _ _ _ _ acts => actsInScope acts
   | .flowMod _ _ _ _ _ _ _ _ _ _ acts => actsInScope acts
   | _ => True
 
